@@ -141,7 +141,9 @@ func AddPreamble(str string, placeholderMap map[string]MalType) (string, error) 
 }
 
 func starts_with(xs []MalType, sym string) bool {
-	if 0 < len(xs) {
+	// used for (unquote x) and (splice-unquote x): without an operand the form is
+	// not an unquote form (callers index xs[1])
+	if 1 < len(xs) {
 		switch s := xs[0].(type) {
 		case Symbol:
 			return s.Val == sym
